@@ -37,8 +37,15 @@ CLAIMS = {
              "of a fragment's handling, every k outside finish: the call returns the error, the state satisfies "
              "LawfulUpTo, redelivery gives the same outcome as the fault-free delivery and an equivalent abstraction; "
              "re-programming identical bytes is idempotent), fault_retry_continue_L2, fault_retry_seq_L2 (any sequence "
-             "of such episodes). Known finding fault-site=finish (no small safe repair). Faults on read operations are "
-             "exercised by the oracle-only suite d5fr.",
+             "of such episodes). C18c adds failing flash READS: read_fault_retry_L2 / flash_fault_retry_L2 — over a copy of "
+             "handle_segment in which every flash read of the strip and elimination loops is gated by a fault counter "
+             "(handleSegmentC_none: with no fault pending the copy IS the model's function), a failed read outside finish "
+             "returns the error with the device untouched, and the redelivery is the very run that never failed. Not "
+             "covered by C18c: reads inside finish, the header read that fills an empty segment-size cache, reads of "
+             "try_recover. Known finding fault-site=finish (no small safe repair). On the real code: one fault at each "
+             "mutating-operation index + redelivery, sequences of up to 3 faulted fragments with up to 3 failures each "
+             "(d5f), and faults on any operation incl. reads (d5fr, oracle only, because read counts are not part of the "
+             "contract).",
         design_ref="DESIGN.md section 6 (C18)"),
     "C02": dict(
         text="recon_sound is proved in Lean for every N, block size, original data, contract-respecting matrix, "
